@@ -115,3 +115,21 @@ Check C06_sync_buffer_drained :
   forall (pol : bool) (l : list (option Z)) (fuel : nat) (script : list tok) (evs : list ev) (items : list Z), (length l < fuel)%nat -> iterate fuel (sync_bulk_next pol) l script evs items = (if has_none l then {| r_events := evs; r_items := rev items ++ before_none l; r_end := PRaise EStopIteration; r_rest := script |} else iterate (fuel - length l) (sync_bulk_next pol) [] script evs (rev (before_none l) ++ items)).
 Print Assumptions C06_getbulk_context.
 Print Assumptions C06_sync_buffer_drained.
+
+(* "a walk cannot report an entry twice", at the level of what the caller gets - the OID STRINGS ([it_key], the text the
+   renderer made of the OID): whatever the agent replies, they are pairwise distinct.  Holds because the renderer refuses
+   sub-identifiers above 2^32-1 (it printed them modulo 2^32 before the fix: commit, and the walk then reported 1 and
+   2^32+1 as the same entry); Proofs/WalkKeys.v *)
+From GS Require Import Proofs.WalkKeys.
+Theorem C06_yielded_texts_distinct :
+  forall (text : bytes) (mr : option Z) (it : getiter) (fuel : nat) (a : agent), getiter_new text mr = Return it -> NoDup (map it_key (yielded (walk_next fuel a 0 it [] []))) /\ NoDup (map it_key (yielded (walk_bulk fuel a 0 it [] []))).
+Proof. exact walk_keys_distinct_api. Qed.
+Theorem C06_yielded_texts_distinct_any_base :
+  forall (fuel : nat) (a : agent) (it0 : getiter) (base : bytes) (c : Z) (rest : bytes), fresh_iter it0 base -> base = c :: rest -> 0 <= c < 120 -> NoDup (map it_key (yielded (walk_next fuel a 0 it0 [] []))) /\ NoDup (map it_key (yielded (walk_bulk fuel a 0 it0 [] []))).
+Proof. exact walk_keys_distinct. Qed.
+Check C06_yielded_texts_distinct :
+  forall (text : bytes) (mr : option Z) (it : getiter) (fuel : nat) (a : agent), getiter_new text mr = Return it -> NoDup (map it_key (yielded (walk_next fuel a 0 it [] []))) /\ NoDup (map it_key (yielded (walk_bulk fuel a 0 it [] []))).
+Check C06_yielded_texts_distinct_any_base :
+  forall (fuel : nat) (a : agent) (it0 : getiter) (base : bytes) (c : Z) (rest : bytes), fresh_iter it0 base -> base = c :: rest -> 0 <= c < 120 -> NoDup (map it_key (yielded (walk_next fuel a 0 it0 [] []))) /\ NoDup (map it_key (yielded (walk_bulk fuel a 0 it0 [] []))).
+Print Assumptions C06_yielded_texts_distinct.
+Print Assumptions C06_yielded_texts_distinct_any_base.
